@@ -774,13 +774,21 @@ class ndarray(object):
         return ndarray(self.shape, 'i', _argsort(self._d))
 
     def sort(self, axis=-1, kind=None, order=None):
-        if self.ndim != 1:
-            raise ModelGap("sort N-d")
+        if self.ndim == 0:
+            raise AxisError("axis %r is out of bounds for array of dimension 0" % (axis,))
+        axis = _norm_axis(axis, self.ndim)
+        st = _strides(self.shape)
+        n = self.shape[axis]
         d = self._d
-        order_ = _argsort(d)
-        new = [d[i] for i in order_]
-        for i, v in enumerate(new):
-            self._set(i, v)
+        others = [range(m) if i != axis else [0] for i, m in enumerate(self.shape)]
+        import itertools as _it
+        for pos in _it.product(*others):
+            base = builtins.sum(p * s_ for p, s_ in zip(pos, st))
+            idxs = [base + i * st[axis] for i in range(n)]
+            cells = [d[j] for j in idxs]
+            order_ = _argsort(cells)
+            for j, o in zip(idxs, order_):
+                self._set(j, cells[o])
 
     def searchsorted(self, v, side='left', sorter=None):
         from ._funcs import searchsorted
@@ -871,8 +879,9 @@ def _argsort(cells):
     order = []
     for i, c in enumerate(cells):
         j = len(order)
-        while j > 0 and c < cells[order[j - 1]]:
-            j -= 1
+        if not _isnan_cell(c):          # NaN sorts last (NumPy)
+            while j > 0 and (_isnan_cell(cells[order[j - 1]]) or c < cells[order[j - 1]]):
+                j -= 1
         order.insert(j, i)
     return order
 
